@@ -233,8 +233,10 @@ class Check:
         cov.update(self.notes)
         ev = {"property_id": self.prop, "tier": self.tier, "seed": seed(), "level": level, "coverage": cov,
               "assumptions": self.assumptions, "wall_s": round(time.time() - self.t0, 1), "violations": len(new)}
-        os.makedirs(os.path.join(ROOT, "evidence"), exist_ok=True)
-        with open(os.path.join(ROOT, "evidence", f"{self.prop}.json"), "w") as f:
+        # checks beyond the listed properties (ids X..) keep their evidence apart from the properties' evidence files
+        edir = os.path.join(ROOT, "extras" if self.prop.startswith("X") else "evidence")
+        os.makedirs(edir, exist_ok=True)
+        with open(os.path.join(edir, f"{self.prop}.json"), "w") as f:
             json.dump(ev, f, indent=1)
         log(f"[{self.prop}] {self.tier}: states={self.states} traces={self.traces} evals={self.evaluations} "
             f"new_violations={len(new)} known={cov['violations_known']} wall={ev['wall_s']}s")
